@@ -16,13 +16,15 @@ git -C $WT apply $D/patch.diff || echo "PATCH DOES NOT APPLY" >> $OUT/demo_clean
 ( cd $WT && cargo test --offline -p lymui --test demo 2>&1 | grep -E "^test result|error\[" | head -3 ) > $OUT/demo_patched.txt
 git -C /repo worktree remove --force $WT
 cp $D/patch.diff $D/demo.rs $D/meta.json $OUT/
-# now the checks
+# now the checks: in a private copy of /verif wired to a scratch worktree of /repo (tools/mutcopy.sh), so that neither
+# /repo nor /verif/lean/LymuiVerif/Gen is disturbed (equivalent to `git -C /repo apply` + run + `git -C /repo checkout -- .`)
 unset CARGO_TARGET_DIR
-git -C /repo apply $D/patch.diff || { echo "patch does not apply to /repo"; exit 2; }
+/verif/tools/mutcopy.sh > /dev/null
+git -C /tmp/repo_mut apply $D/patch.diff || { echo "patch does not apply"; exit 2; }
 : > $OUT/checks.txt
 for id in "$@"; do
   echo "--- ./check $id --tier quick" >> $OUT/checks.txt
-  ( cd /verif && timeout 3000 ./check $id --tier quick 2>&1 | tail -8 ) >> $OUT/checks.txt
+  ( cd /tmp/verif_mut && VERIF_REPO=/tmp/repo_mut timeout 3000 ./check $id --tier quick 2>&1 | tail -8 | sed 's#/tmp/verif_mut#/verif#g' ) >> $OUT/checks.txt
 done
-git -C /repo checkout -- .
+git -C /tmp/repo_mut checkout -- .
 echo "== $NAME"; echo -n "demo on clean tree:   "; cat $OUT/demo_clean.txt; echo -n "suite with patch:     "; cat $OUT/suite_patched.txt; echo -n "demo with patch:      "; cat $OUT/demo_patched.txt; grep -E "^---|VIOLATION|^OK" $OUT/checks.txt
